@@ -974,6 +974,65 @@ def r8c_tokeniser(ctx):
     residue_guard(ctx, after)
 
 
+def r10_literal_domain(ctx):
+    """A number written in an expression is read as a float: the property's values are those of float arithmetic
+    (`7**30` reaches `sin` as a float, `2**64 == 2**64 + 1` is decided in floats), and the numpy functions the atom calls
+    refuse Python integers beyond 64 bit.  On every path of AtomBase.__init__ taken for a string argument the stored
+    value is float(<the string, possibly stripped>); a different constructor (int, Decimal, Fraction, complex, eval,
+    literal_eval) on such a path is the violation, any other spelling is unrecognised."""
+    from ..flowexpr import explore, truth
+    fn = ctx.fn(ATOM, "AtomBase.__init__")
+    ctx.functions_analysed.add(f"{ATOM}::AtomBase.__init__")
+    pa = [a.arg for a in fn.args.args]
+    pv = pa[1] if len(pa) > 1 else "value"
+    what = "a literal in an expression is read as a float"
+
+    def atom(e):
+        k = norm(e)
+        if k in (f"isinstance({pv}, str)",):
+            return True
+        return None
+    ex = explore(fn)
+    # paths taken for a string: the type test is true; tests over the text itself (isdigit, a pattern) stay free - each
+    # of their branches is a path some string takes
+    tkey = f"isinstance({pv}, str)"
+    ps, unk = [], []
+    for q in ex.paths:
+        tt = [e for e in q.events if e.kind == "test" and isinstance(e.resolved, ast.AST) and tkey in norm(e.resolved)]
+        if not tt:
+            continue
+        vals = [truth(e.resolved, lambda x: True if norm(x) == tkey else None) for e in tt]
+        if any(v is None for v in vals):
+            unk.append(norm(tt[0].resolved))
+            continue
+        if all(v == e.extra for v, e in zip(vals, tt)):
+            ps.append(q)
+    n = 0
+    for q in ps:
+        stores = [e for e in q.events if e.kind == "store" and e.extra == "self.value"]
+        if len(stores) != 1:
+            ctx.unrecognised(ATOM, "AtomBase.__init__", what, f"{len(stores)} stores to self.value on a string path")
+            continue
+        n += 1
+        v = stores[0].resolved
+        heads = set()
+        for c in ast.walk(v):
+            if isinstance(c, ast.Call):
+                h = dotted_name(c.func)
+                if h:
+                    heads.add(h.split(".")[-1])
+        foreign = sorted(heads & {"int", "Decimal", "Fraction", "complex", "eval", "literal_eval", "round"})
+        if foreign:
+            ctx.violated(ATOM, "AtomBase.__init__", what, detail=norm(v)[:160], expected=f"float({pv}.strip())")
+        elif isinstance(v, ast.Call) and dotted_name(v.func) == "float" and len(v.args) == 1:
+            ctx.holds(ATOM, "AtomBase.__init__", what, detail=norm(v)[:120])
+        else:
+            ctx.unrecognised(ATOM, "AtomBase.__init__", what, f"stored value {norm(v)[:100]}")
+    if unk and not ps:
+        ctx.unrecognised(ATOM, "AtomBase.__init__", what, f"tests not decided for a string argument: {sorted(set(unk))[:2]}")
+    ctx.floor("string paths of AtomBase.__init__", n + (1 if unk and not ps else 0), 1)
+
+
 def r9_fresh_buffers(ctx):
     _C02.r1_kill_before_use(ctx)
 
@@ -989,4 +1048,5 @@ RULES = [
     ("C01.R8", "parenthesis scanner: per (lexeme, depth) the depth change, characters consumed and argument splits are the expected ones; what is consumed was inspected, once; arity is checked", r8_parenthesis),
     ("C01.R8c", "tokeniser cursor discipline: symbol inspected => consumed by the operator constructor; otherwise one character shifted; pending text becomes exactly one atom; leftovers rejected", r8c_tokeniser),
     ("C01.R9", "the value of an expression depends on that expression only: every solve() starts from empty token buffers (shared with C02.R1)", r9_fresh_buffers),
+    ("C01.R10", "a number written in an expression is read as a float on every path of AtomBase.__init__ taken for a string", r10_literal_domain),
 ]
